@@ -60,7 +60,7 @@ impl Ctx {
         // the macro call form of other properties: a run with --report-as C02 reports what the reference formatter finds in
         // the macro's line under C02 (numerals reach the wire without loss, whatever the call form) and nothing else
         let as_prop = self.args.str("report-as", "C17");
-        if as_prop != "C17" && !(rule == "reference-formatter" || class == "line-differs-from-chain") {
+        if as_prop != "C17" && rule != "numeral" {
             self.rep.obs("other_property_rule_hits", 1);
             return;
         }
@@ -148,11 +148,20 @@ fn judge(
     }
     cx.rep.obs("macro_vs_chain_pairs_equal", 1);
     if let Ok(e) = &exp {
-        if let Err(why) = matches_line(e, &macro_emits[0].0) {
-            cx.violation("reference-formatter", "text-differs", format!("{}: {}", mac, why), trace);
-            return;
+        // how a line is formatted is not C17's business (macro and chain agree, that is all C17 says): the reference
+        // formatter only counts here. A run for C02 judges the value field of the macro's line, nothing else.
+        if cx.args.str("report-as", "C17") == "C02" {
+            if let Some(Err(why)) = value_field_matches(e, &macro_emits[0].0) {
+                cx.violation("numeral", "macro-value-field", format!("{}: {}", mac, why), trace);
+                return;
+            }
+            cx.rep.obs("macro_value_fields_checked", 1);
         }
-        cx.rep.obs("macro_lines_matched_reference", 1);
+        if matches_line(e, &macro_emits[0].0).is_ok() {
+            cx.rep.obs("macro_lines_matched_reference", 1);
+        } else {
+            cx.rep.obs("other_property_rule_hits", 1);
+        }
     }
     // failures go to the handler only, exactly once, with the same error; nothing on success
     let want_handler = if exp.is_err() || injected.is_some() { 1 } else { 0 };
